@@ -17,6 +17,7 @@ func init() {
 		LevelNote: "Ledger entries are reading, not proof (counted separately). Trusted: the compiler's prove pass; the library contracts listed in the evidence; 64-bit sums of lengths and <=32-bit quantities do not wrap. Does not decide panics inside pion/sdp, pion/ice, pion/rtp, pion/srtp or the interceptors, nil dereferences, data races between guard and use, or resource exhaustion.",
 		DesignRef: "DESIGN.md §5 C30, §4 E4",
 		Run:       runC30,
+		Own386:    true,
 	})
 }
 
